@@ -66,8 +66,19 @@ def run(ctx, res):
                               f"{len(base)} rows for {len(df)} input rows, index preserved: {list(base.index) == list(df.index)}",
                               dict(kind="shape", date=impl.iso(o), targets=len(nodes)), True)
         # (b) random target subsets
-        for _ in range(12 if ctx.tier == "quick" else 60):
-            S = rnd.sample(nodes, rnd.randint(1, 6))
+        # directed: every computed id column alone and together with one column of its level (an aggregation over it); every
+        # node alone in the thorough tier
+        idn = [n for n in nodes if n.endswith("_id")]
+        directed = [[n] for n in idn]
+        for n in idn:
+            lev = [m for m in nodes if m.endswith("_" + n[:-3]) and m != n]
+            if lev:
+                directed.append([n, rnd.choice(lev)])
+        if ctx.tier == "thorough":
+            directed += [[n] for n in nodes if n not in idn]
+        else:
+            directed += [[n] for n in rnd.sample(nodes, min(len(nodes), 25))]
+        for S in directed + [rnd.sample(nodes, rnd.randint(1, 6)) for _ in range(12 if ctx.tier == "quick" else 60)]:
             try:
                 out, _ = engine.simulate(df, o, targets=S)
             except Exception as ex:  # noqa: BLE001
@@ -175,7 +186,7 @@ def run(ctx, res):
                 "U7: Table.run_table — Engine.run instantiated with the regenerated rule ASTs, the model environment, the real loader's graph, "
                 "numpy.vectorize with declared dtypes, rounding, aggregation, id builders, unit conversion — evaluated inside Coq on the same small "
                 "populations and compared with the implementation on EVERY computed column of the default graph (dtype, values 1e-9, ids exactly); "
-                "only array-level / untranslatable rules are supplied as data. distinct = distinct (date, target set / option) runs + U7 columns.")
+                "Every computed id column is requested alone and together with one column of its level (thorough: every node alone). only array-level / untranslatable rules are supplied as data. distinct = distinct (date, target set / option) runs + U7 columns.")
 
 
 def replay(payload):
